@@ -13,11 +13,12 @@ search: the traced process is killed on entry of every single system call instan
 """
 import json, os, re, shutil, subprocess
 from concurrent.futures import ThreadPoolExecutor
-from vlib.core import VERIF, CheckError, hexs, unhex
+from vlib.core import VERIF, BUILD, CheckError, hexs, unhex
 from vlib.tr_preload import tr_preload
 from vlib import preload as pl
 
 PROP = "C20"
+LAUNCH = os.path.join(BUILD, "harness", "tool_launch")
 PRE = "ld.so.preload"
 ERRNOS = ["ENOSPC", "EIO", "EDQUOT"]
 WRITE_TYPE = ["openat", "open", "creat", "write", "pwrite64", "writev", "fsync", "fdatasync", "close", "rename", "renameat", "renameat2",
@@ -66,20 +67,24 @@ def extra_str(extra):
     if not extra:
         return ""
     t = extra.get("tmp")
-    return " [%s%s]" % ("preload file is a symlink; " if extra.get("link") else "",
-                        "no stale temp file" if t is None else ("stale temp file: %s" % (t if isinstance(t, str) else "%d bytes %r" % (len(t), t[:40]))))
+    return " [%s%s%s%s]" % ("preload file is a symlink; " if extra.get("link") else "",
+                            ("started with fd %s closed; " % ",".join(map(str, extra["closed"]))) if extra.get("closed") else "",
+                            ("file size limit %d bytes, SIGXFSZ ignored; " % extra["fsize"]) if extra.get("fsize") is not None else "",
+                            "no stale temp file" if t is None else ("stale temp file: %s" % (t if isinstance(t, str) else "%d bytes %r" % (len(t), t[:40]))))
 
 
 def extra_enc(extra):
     extra = extra or {}
     t = extra.get("tmp")
-    return {"link": bool(extra.get("link")), "tmp": None if t is None else (t if isinstance(t, str) else "hex:" + hexs(t))}
+    return {"link": bool(extra.get("link")), "tmp": None if t is None else (t if isinstance(t, str) else "hex:" + hexs(t)),
+            "closed": list(extra.get("closed") or []), "fsize": extra.get("fsize")}
 
 
 def extra_dec(e):
     e = e or {}
     t = e.get("tmp")
-    return {"link": bool(e.get("link")), "tmp": None if t is None else (unhex(t[4:]) if t.startswith("hex:") else t)}
+    return {"link": bool(e.get("link")), "tmp": None if t is None else (unhex(t[4:]) if t.startswith("hex:") else t),
+            "closed": list(e.get("closed") or []), "fsize": e.get("fsize")}
 
 
 def state(d):
@@ -88,11 +93,26 @@ def state(d):
     return open(p, "rb").read() if os.path.exists(p) else None
 
 
-def strace_run(exe, d, action, inject=None, log=None):
+def launcher(extra):
+    """process-state part of an initial state: descriptors closed at start, file-size limit with SIGXFSZ ignored (real short writes)"""
+    extra = extra or {}
+    pre = []
+    for fd in extra.get("closed") or []:
+        pre += ["--close", str(fd)]
+    if extra.get("fsize") is not None:
+        pre += ["--fsize", str(extra["fsize"])]
+    if not pre:
+        return []
+    if not os.path.exists(LAUNCH):
+        raise CheckError("%s missing: run MANIFEST.setup_cmd" % LAUNCH)
+    return [LAUNCH] + pre + ["--"]
+
+
+def strace_run(exe, d, action, inject=None, log=None, extra=None):
     cmd = ["strace", "-o", log or "/dev/null"]
     if inject:
         cmd += ["-e", "inject=" + inject]
-    cmd += ["-E", "SNOOPY_TEST_LD_SO_PRELOAD_PATH=" + PRE, "-E", "SNOOPY_TEST_LIBSNOOPY_SO_PATH=" + pl.P_MAIN.decode(), exe, action]
+    cmd += ["-E", "SNOOPY_TEST_LD_SO_PRELOAD_PATH=" + PRE, "-E", "SNOOPY_TEST_LIBSNOOPY_SO_PATH=" + pl.P_MAIN.decode()] + launcher(extra) + [exe, action]
     p = subprocess.run(cmd, cwd=d, env={"PATH": "/usr/bin:/bin"}, stdin=subprocess.DEVNULL, stdout=subprocess.DEVNULL, stderr=subprocess.DEVNULL, timeout=60)
     return p.returncode
 
@@ -181,7 +201,8 @@ def contents(run):
     big = b"/lib/x%d.so\n"
     bigc = b"".join(big % i for i in range(900))            # > 2 stdio blocks
     cs = [("enable", None), ("enable", b""), ("enable", b"/lib/foreign.so\n"), ("enable", b"/lib/foreign.so"), ("enable", bigc),
-          ("enable", P + b"\n"), ("enable", b"/opt/libsnoopy.so\n"),
+          ("enable", P + b"\n"), ("enable", b"/opt/libsnoopy.so\n"), ("enable", b"/lib/50%done.so\n# 100% sure %s%s%s\n/x/%d-%u/%5c.so %%\n"),
+          ("disable", b"/lib/50%done.so\n" + P + b" /x/%d-%u/%5c.so # 100% sure %s\n%%\n"),
           ("disable", P + b"\n"), ("disable", b"a\n" + P + b"\nb\n"), ("disable", P + b" /lib/other.so\n"), ("disable", bigc + P + b" # c\n" + bigc),
           ("disable", None), ("disable", b"# nothing\n")]
     if run.tier == "thorough":
@@ -205,6 +226,16 @@ def with_states(run, cs, news):
             out.append((a, c, n, {"tmp": t}))
         out.append((a, c, n, {"link": True}))
         out.append((a, c, n, {"link": True, "tmp": n_ + b"#tail\n"}))
+        # started without stdin / stdout / stderr: the next descriptor opened IS that number
+        for closed in ([0], [1], [2], [0, 1, 2]):
+            out.append((a, c, n, {"closed": closed}))
+    # real short writes: a file size limit below, inside, at and just above the size of the new content
+    for (a, c, n) in writers if run.tier == "thorough" else [w for w in writers if w[1] in (b"/lib/foreign.so\n", b"a\n" + pl.P_MAIN + b"\nb\n", b"")] + \
+            [(a, c, n) for (a, c), n in zip(cs, news) if n != c and len(n or b"") >= 200][:2]:
+        L = len(n or b"")
+        for lim in sorted(set([0, 1, L // 2, max(0, L - 1), L, L + 1, 4096, 4097, 8192])):
+            if lim <= L + 1:
+                out.append((a, c, n, {"fsize": lim}))
     return out
 
 
@@ -217,7 +248,7 @@ def one_case(run, exe, trace_model, idx, action, content, new, extra=None):
     # --- the reference run
     setup(d, content, extra)
     log = os.path.join(run.scratch, "c20-trace-%d.log" % idx)
-    rc = strace_run(exe, d, action, log=log)
+    rc = strace_run(exe, d, action, log=log, extra=extra)
     res["runs"] += 1
     calls = parse_trace(log)
     final = state(d)
@@ -227,6 +258,17 @@ def one_case(run, exe, trace_model, idx, action, content, new, extra=None):
     isdir = bool(extra and extra.get("tmp") == "dir")       # the temp path is a directory: snoopyctl must fail and leave the file alone
     if (final or b"") != ((content if isdir else new) or b""):
         res["violations"].append({"why": "final content of the undisturbed run differs from the model's prediction", "fault": None, "after": hexs(final)})
+    limited = bool(extra and extra.get("fsize") is not None)
+    if limited:
+        # under a file size limit the run either fails cleanly (old content) or, when everything fits, succeeds (new content)
+        fits = extra["fsize"] >= len(new or b"")
+        res["violations"] = []
+        if (final or b"") not in allowed or (fits and (final or b"") != (new or b"")):
+            res["violations"].append({"why": "preload file is neither the old nor the complete new content" if (final or b"") not in allowed else "the new content fits under the limit but was not written",
+                                      "fault": None, "after": hexs(final), "rc": rc})
+        res["observed"], res["nsys"] = obs, len(calls)
+        shutil.rmtree(d, ignore_errors=True)
+        return res
     if obs != exp and not (extra and extra.get("tmp") in ("dir",)):
         res["trace_mismatch"] = {"observed": obs, "expected": exp}
     res["observed"] = obs
@@ -242,14 +284,19 @@ def one_case(run, exe, trace_model, idx, action, content, new, extra=None):
         plan.append(("kill", nm, counts[nm], None))
     # one past the last instance of each call: nothing to hit, the run must complete (sanity of the injection itself)
     for nm, n in counts.items():
+        # strace's error injection suppresses the call itself: a suppressed close() leaves the descriptor open, which no failing close does
+        # on Linux (the descriptor is always released).  Harmless normally; when the process was started without fd 0/1/2 the leaked temp-file
+        # descriptor IS one of them and later output lands in the renamed file - an artefact of the injection, so close is not failed there.
+        if nm == "close" and extra and extra.get("closed"):
+            continue
         if nm in WRITE_TYPE:
             for k in range(1, n + 1):
-                for e in ERRNOS:
+                for e in ERRNOS + (["EPERM"] if nm in ("fchown", "fchmod") else []):
                     plan.append(("error", nm, k, e))
     for (kind, nm, k, e) in plan:
         setup(d, content, extra)
         inj = "%s:signal=SIGKILL:when=%d" % (nm, k) if kind == "kill" else "%s:error=%s:when=%d" % (nm, e, k)
-        rc = strace_run(exe, d, action, inject=inj)
+        rc = strace_run(exe, d, action, inject=inj, extra=extra)
         res["runs"] += 1
         after = state(d)
         if (after or b"") not in allowed:
@@ -270,10 +317,13 @@ def corpus_plans():
             if fn.endswith(".txt"):
                 for line in open(os.path.join(d, fn)):
                     f = line.rstrip("\n").split("\t")
-                    if len(f) in (6, 8) and not line.startswith("#"):
+                    if len(f) in (6, 8, 10) and not line.startswith("#"):
                         extra = None
-                        if len(f) == 8:      # + temp-file state (- | hex:<hex> | symlink | dir), preload file is a symlink (0|1)
+                        if len(f) >= 8:      # + temp-file state (- | hex:<hex> | symlink | dir), preload file is a symlink (0|1)
                             extra = extra_dec({"tmp": None if f[6] == "-" else f[6], "link": f[7] == "1"})
+                        if len(f) == 10:     # + descriptors closed at start (- | 0,1,2), file size limit (- | bytes)
+                            extra["closed"] = [] if f[8] == "-" else [int(x) for x in f[8].split(",")]
+                            extra["fsize"] = None if f[9] == "-" else int(f[9])
                         out.append((f[0], unhex(f[1]), f[2], f[3], int(f[4]), None if f[5] == "-" else f[5], extra))
     return out
 
@@ -284,10 +334,11 @@ def run_plan(run, exe, idx, plan, new):
     os.makedirs(d, exist_ok=True)
     setup(d, content, extra)
     inj = None if kind == "none" else ("%s:signal=SIGKILL:when=%d" % (nm, k) if kind == "kill" else "%s:error=%s:when=%d" % (nm, e, k))
-    rc = strace_run(exe, d, action, inject=inj)
+    rc = strace_run(exe, d, action, inject=inj, extra=extra)
     after = state(d)
     shutil.rmtree(d, ignore_errors=True)
-    if (after or b"") not in (content or b"", new or b""):
+    fits = extra and extra.get("fsize") is not None and extra["fsize"] >= len(new or b"") and kind == "none"
+    if (after or b"") not in (content or b"", new or b"") or (fits and (after or b"") != (new or b"")):
         return {"why": "preload file is neither the old nor the new content", "fault": None if kind == "none" else {"kind": kind, "syscall": nm, "when": k, "errno": e},
                 "after": hexs(after), "rc": rc}
     return None
@@ -399,13 +450,13 @@ def replay(run, path):
     inj = None
     if f:
         inj = "%s:signal=SIGKILL:when=%d" % (f["syscall"], f["when"]) if f["kind"] == "kill" else "%s:error=%s:when=%d" % (f["syscall"], f["errno"], f["when"])
-    rc = strace_run(exe, d, a, inject=inj, log=os.path.join(d, "t.log"))
+    rc = strace_run(exe, d, a, inject=inj, log=os.path.join(run.scratch, "replay-t.log"), extra=extra)
     after = state(d)
     print("action:", a, "fault:", f, "initial state:", extra_str(extra) or "clean directory")
     print(" old:  ", c)
     print(" new:  ", new)
     print(" found:", after, "rc", rc)
-    print(" last system calls:", [x[0] for x in parse_trace(os.path.join(d, "t.log"))][-8:])
+    print(" last system calls:", [x[0] for x in parse_trace(os.path.join(run.scratch, "replay-t.log"))][-8:])
     bad = (after or b"") not in (c or b"", new or b"")
     print("violation reproduced" if bad else "file holds old or new content")
     run.cleanup()
